@@ -43,6 +43,14 @@ def pairs_for(rng, b, ent, u, v, n):
             ny = enc_exact(-k * su, b)
             if ny:
                 out.append((x, ny, "opposite"))
+    # nearly cancelling operands in different units: the difference is tiny compared with the operands but far
+    # above the rounding of a conversion
+    for (x, _), d in zip(xs[:3], (Fraction(1, 10 ** 7), Fraction(-1, 10 ** 9), Fraction(3, 10 ** 12))):
+        fx = frac_of(x, b)
+        if fx != 0:
+            y = enc_round(fx * su / sv * (1 + d), b)
+            if ok(y, sv) and frac_of(y, b) * sv != fx * su:
+                out.append((x, y, "near_cancel"))
     z = enc_round(Fraction(0), b)
     if xs:
         out.append((xs[0][0], z, "rhs_zero"))
